@@ -65,15 +65,63 @@ type c10Rule struct {
 	fails, kids bool
 }
 
-func c10RunRules(flag bool, specs []c10Rule) string {
+// c10Lifecycle replays a history of life-cycle calls (letters: see parseHistory in the Lean
+// driver) on a processor; load declares all rules. Afterwards the rules are loaded and the
+// processor runs, whatever the history was.
+func c10Lifecycle(proc engine.Processor, hist string, load func()) {
+	running, loaded := false, false
+	do := func(c rune) {
+		switch c {
+		case 's':
+			proc.Start()
+			running = true
+		case 'f':
+			proc.Finish()
+			running = false
+		case 'r':
+			if proc.Reset() == nil {
+				loaded = false
+			}
+		case 'a':
+			if !running && !loaded {
+				load()
+				loaded = true
+			}
+		case 'T':
+			proc.SetFailOnFirstErrorInTriggerSequence(true)
+		case 'F':
+			proc.SetFailOnFirstErrorInTriggerSequence(false)
+		}
+	}
+	for _, c := range hist {
+		if c == 'l' {
+			// CLIInterpreter.LoadInitialFile: Finish, Reset, declare everything again, Start
+			for _, x := range "fras" {
+				do(x)
+			}
+		} else {
+			do(c)
+		}
+	}
+	if !loaded {
+		do('f')
+		do('a')
+	}
+	if !running {
+		do('s')
+	}
+}
+
+func c10RunRules(flag bool, hist string, specs []c10Rule) string {
 	proc := engine.NewProcessor(1)
 	proc.SetFailOnFirstErrorInTriggerSequence(flag)
 	var mu sync.Mutex
 	var started []string
 	kids := 0
+	var rules []*engine.Rule
 	for i := range specs {
 		sp := specs[i]
-		check(proc.AddRule(&engine.Rule{
+		rules = append(rules, (&engine.Rule{
 			Name: fmt.Sprintf("r%d", i), KindMatch: []string{"e"}, ScopeMatch: []string{}, Priority: sp.prio,
 			Action: func(p engine.Processor, m engine.Monitor, e *engine.Event, tid uint64) error {
 				mu.Lock()
@@ -90,15 +138,19 @@ func c10RunRules(flag bool, specs []c10Rule) string {
 				return nil
 			}}))
 	}
-	check(proc.AddRule(&engine.Rule{
+	rules = append(rules, &engine.Rule{
 		Name: "kid", KindMatch: []string{"c"}, ScopeMatch: []string{},
 		Action: func(p engine.Processor, m engine.Monitor, e *engine.Event, tid uint64) error {
 			mu.Lock()
 			kids++
 			mu.Unlock()
 			return nil
-		}}))
-	proc.Start()
+		}})
+	c10Lifecycle(proc, hist, func() {
+		for _, r := range rules {
+			check(proc.AddRule(r))
+		}
+	})
 	rm := proc.NewRootMonitor(nil, nil)
 	if _, err := proc.AddEventAndWait(engine.NewEvent("ev", []string{"e"}, nil), rm); err != nil {
 		return "ERR " + oneLine(err.Error())
@@ -139,7 +191,7 @@ var (
 // c10RunSinks declares one sink per rule (`priority N`, `raise` for a failing one, `addEvent` for a
 // child event) and adds the event from ECAL code; the interpreter's processor has fail-on-first-error
 // set by default (interpreter/provider.go).
-func c10RunSinks(specs []c10Rule) string {
+func c10RunSinks(hist string, specs []c10Rule) string {
 	var src strings.Builder
 	for i, sp := range specs {
 		fmt.Fprintf(&src, "sink s%d\n  kindmatch [\"e\"],\n  priority %d\n{\n  x.c10log(%d)\n", i, sp.prio, sp.prio)
@@ -151,20 +203,35 @@ func c10RunSinks(specs []c10Rule) string {
 		}
 		src.WriteString("}\n")
 	}
-	src.WriteString("sink kid\n  kindmatch [\"c\"]\n{\n  x.c10kid(1)\n}\naddEventAndWait(\"ev\", \"e\", {})\n")
+	src.WriteString("sink kid\n  kindmatch [\"c\"]\n{\n  x.c10kid(1)\n}\n")
 	c10SinkMu.Lock()
 	c10SinkLog, c10SinkKids = nil, 0
 	c10SinkMu.Unlock()
 	erp := interpreter.NewECALRuntimeProvider("c10", nil, &memLog{})
 	defer erp.Cron.Stop()
-	ast, err := parser.ParseWithRuntime("c10", src.String(), erp)
-	if err != nil {
-		return "ERR " + oneLine(err.Error())
+	vs := newGlobalScope()
+	eval := func(code string) (interface{}, error) {
+		ast, err := parser.ParseWithRuntime("c10", code, erp)
+		if err != nil {
+			return nil, err
+		}
+		if err = ast.Runtime.Validate(); err != nil {
+			return nil, err
+		}
+		return ast.Runtime.Eval(vs, make(map[string]interface{}), erp.NewThreadID())
 	}
-	if err = ast.Runtime.Validate(); err != nil {
-		return "ERR " + oneLine(err.Error())
+	var loadErr error
+	// the provider exists (flag set at construction); the sinks are declared by evaluating the
+	// program, again after every Reset - the sequence of CLIInterpreter.LoadInitialFile
+	c10Lifecycle(erp.Processor, hist, func() {
+		if _, err := eval(src.String()); err != nil {
+			loadErr = err
+		}
+	})
+	if loadErr != nil {
+		return "ERR " + oneLine(loadErr.Error())
 	}
-	res, err := ast.Runtime.Eval(newGlobalScope(), make(map[string]interface{}), erp.NewThreadID())
+	res, err := eval("addEventAndWait(\"ev\", \"e\", {})\n")
 	erp.Processor.Finish()
 	if err != nil {
 		return "ERR " + oneLine(err.Error())
@@ -582,6 +649,9 @@ func init() {
 				"R 0 0:0:1 1:0:0 2:1:1 3:0:0 4:1:0 5:0:0",
 				"R 1 5:0:0 4:0:0 3:0:0 2:0:0 1:0:0 0:0:0",
 				"S 3:0:0 0:0:1 2:1:1 1:0:0 5:0:0 4:1:0",
+				"S Hl 3:0:0 0:0:1 2:1:1 1:0:0 5:0:0 4:1:0",
+				"R 1 Hsfra 1:1:0 2:0:0 0:0:1",
+				"R 0 HTl 1:1:0 2:0:0 0:0:1",
 				"K 1 r:R:1:0,0:3:1:0,0:1:1:1,0:2:0:0,2:0:1:0|r:5:1:0,r:-2:1:0",
 				"K 1 r:3:1:0,r:1:1:0,r:1:1:0,r:0:1:0,r:-1:1:0,r:2:0:0",
 				"K 4 r:R:1:0,0:3:1:0,0:1:1:1,0:2:0:0,2:0:1:0|r:5:1:0,r:-2:1:0",
@@ -614,10 +684,32 @@ func init() {
 					g.Count("rules: priorities 0..5")
 					g.Emit(c10RulePayload(true, rs))
 					g.Emit(c10RulePayload(false, rs))
+					body := strings.TrimPrefix(c10RulePayload(true, rs), "R 1")
 					if rep%4 == 0 {
 						// the same rules as ECAL sinks (flag = the interpreter's default)
 						g.Count("sinks: priorities 0..5")
-						g.Emit("S" + strings.TrimPrefix(c10RulePayload(true, rs), "R 1"))
+						g.Emit("S" + body)
+					}
+					if rep%3 == 0 {
+						// a processor life cycle before the measured event: start/finish cycles, reset and
+						// re-declaration (l = the reload sequence of CLIInterpreter.LoadInitialFile), the
+						// flag set before, in between or after
+						hs := []string{"sf", "sfra", "ra", "l", "ll", "sfsfra", "lsfl", "a", "asfr"}
+						h := hs[g.R.Intn(len(hs))]
+						switch g.R.Intn(4) {
+						case 0:
+							h = "T" + h
+						case 1:
+							h = "F" + h
+						case 2:
+							k := g.R.Intn(len(h) + 1)
+							h = h[:k] + string("TF"[g.R.Intn(2)]) + h[k:]
+						}
+						g.Count("rules after a life-cycle history")
+						g.Emit("R 1 H" + h + body)
+						g.Emit("R 0 H" + h + body)
+						g.Count("sinks after a life-cycle history")
+						g.Emit("S H" + h + body)
 					}
 					if second >= 0 {
 						break
@@ -660,20 +752,28 @@ func init() {
 			switch f[0] {
 			case "R":
 				var rs []c10Rule
-				for _, s := range f[2:] {
+				hist, rest := "", f[2:]
+				if len(rest) > 0 && strings.HasPrefix(rest[0], "H") {
+					hist, rest = rest[0][1:], rest[1:]
+				}
+				for _, s := range rest {
 					x := strings.Split(s, ":")
 					p, _ := strconv.Atoi(x[0])
 					rs = append(rs, c10Rule{p, x[1] == "1", x[2] == "1"})
 				}
-				return c10RunRules(f[1] == "1", rs)
+				return c10RunRules(f[1] == "1", hist, rs)
 			case "S":
 				var rs []c10Rule
-				for _, s := range f[1:] {
+				hist, rest := "", f[1:]
+				if len(rest) > 0 && strings.HasPrefix(rest[0], "H") {
+					hist, rest = rest[0][1:], rest[1:]
+				}
+				for _, s := range rest {
 					x := strings.Split(s, ":")
 					p, _ := strconv.Atoi(x[0])
 					rs = append(rs, c10Rule{p, x[1] == "1", x[2] == "1"})
 				}
-				return c10RunSinks(rs)
+				return c10RunSinks(hist, rs)
 			case "B":
 				return c10RunBook(f[1:])
 			case "K":
